@@ -593,12 +593,10 @@ func (i *Interpreter) ExecuteRoute(route *Route, request *Request) (*Response, e
 				// Apply defaults for missing fields
 				inputWithDefaults, err := i.ApplyTypeDefaults(inputObj, typeDef, routeEnv)
 				if err != nil {
-					return &Response{
-						StatusCode: 400,
-						Body: map[string]interface{}{
-							"error": fmt.Sprintf("error applying defaults: %v", err),
-						},
-					}, err
+					// A default expression that cannot be evaluated is a fault
+					// of the program, not of the request: a generic 500 like any
+					// other evaluation error, not a 400 carrying the error text.
+					return nil, fmt.Errorf("error applying defaults: %v", err)
 				}
 
 				// Validate input against the TypeDef
